@@ -71,11 +71,15 @@ Proof.
   - rewrite (IH _ _ I). apply step_consts.
 Qed.
 
+Lemma eq_listZ_refl l : eq_listZ l l = true.
+Proof. induction l as [|x t IH]; cbn; [reflexivity|]. rewrite Z.eqb_refl, IH. reflexivity. Qed.
+
 Theorem wire_model inp :
   prop_case inp (run_case inp) = 0
   \/ (prop_case inp (run_case inp) = 8 /\ finding_sig inp (run_case inp) = 2).
 Proof.
-  unfold prop_case, finding_sig, run_case. destruct (decode inp) as [j0 ops].
+  unfold prop_case, finding_sig. rewrite eq_listZ_refl.
+  unfold run_case. destruct (decode inp) as [j0 ops].
   assert (L : length ops = length (observe j0 ops)).
   { unfold observe. rewrite observe_fx_eq. symmetry. apply obs_length. }
   rewrite L. rewrite parse_obs_enc.
